@@ -80,9 +80,13 @@ func (p *Core) genSend() []sim.Op {
 		dstTime = dst.LastTime
 	}
 	tight := w.Intn(100) < p.Opt.TightTmo
+	gb := p.Opt.GuardBoundary
+	if gb == 0 {
+		gb = 5
+	}
 	if r.V2 {
 		switch {
-		case w.Chance(0.06): // guard boundaries
+		case w.Intn(100) < gb: // guard boundaries
 			srcNow := p.chainTime(r.Chain[d].Idx).Add(time.Second)
 			b := []int64{srcNow.Unix(), srcNow.Unix() + 1, srcNow.Unix() - 1, srcNow.Unix() + 86400, srcNow.Unix() + 86401, srcNow.Unix() + 86399, 0}
 			op.M = b[w.Intn(len(b))]
@@ -97,7 +101,7 @@ func (p *Core) genSend() []sim.Op {
 		}
 		return []sim.Op{op}
 	}
-	switch w.Pick(45, 35, 17, 3) {
+	switch w.Pick(45, 35, 17, gb) {
 	case 0: // height only
 		if tight {
 			op.N = dst.Height + 1 + int64(w.Intn(4))
@@ -114,11 +118,21 @@ func (p *Core) genSend() []sim.Op {
 		op.N = dst.Height + 2 + int64(w.Intn(6))
 		op.M = dstTime.UnixNano() + int64(time.Second) + w.Rng.Int63n(int64(60*time.Second))
 	case 3: // guard boundaries: already passed on the client / none at all
-		switch w.Intn(3) {
+		src := r.Chain[d]
+		lh, lts, _ := src.ClientLatestAt(r.Client[d], p.chainTime(src.Idx))
+		switch w.Intn(7) {
 		case 0:
 			op.N = 1
 		case 1:
 			op.M = 1
+		case 2:
+			op.N = int64(lh.RevisionHeight) // == latest client height: elapsed
+		case 3:
+			op.N = int64(lh.RevisionHeight) + 1
+		case 4:
+			op.M = int64(lts) // == latest consensus timestamp: elapsed
+		case 5:
+			op.M = int64(lts) + 1
 		}
 		w.Stats.Probe("v1_send_guard_boundary_value")
 	}
@@ -142,6 +156,13 @@ func (p *Core) nextHonest(ps *PktState, stale bool) []sim.Op {
 			ch := p.closeHeight[chanKey(ps.Dst.Idx, ps.P1.DestinationPort, ps.P1.DestinationChannel)]
 			ops, top := p.ensureProvable(ps.Dst, ch)
 			return append(ops, sim.Op{K: "toc", T: ps.Tag, M: top})
+		}
+		if srcClosed {
+			// the sending end is CLOSED: an honest relayer closes the other end too and then
+			// clears the packet with a timeout-on-close
+			ch := p.closeHeight[chanKey(ps.Src.Idx, ps.P1.SourcePort, ps.P1.SourceChannel)]
+			ops, top := p.ensureProvable(ps.Src, ch)
+			return append(ops, sim.Op{K: "closec", P: ps.Route, X: int64(1 - ps.Dir), M: top})
 		}
 		// timed out on the destination?
 		var ops []sim.Op
@@ -189,7 +210,11 @@ func (p *Core) pickInflight() *PktState {
 		return nil
 	}
 	ps := fl[p.w.Intn(len(fl))]
-	if ps.Ordered && p.w.Chance(0.7) {
+	fb := p.Opt.FrontBias
+	if fb == 0 {
+		fb = 70
+	}
+	if ps.Ordered && p.w.Intn(100) < fb {
 		// an honest relayer works an ordered channel front to back
 		for _, q := range fl {
 			if q.Route == ps.Route && q.Dir == ps.Dir && q.Seq() < ps.Seq() {
